@@ -7,6 +7,7 @@ import random
 from typing import Any, List
 
 from harness.core import Component
+from harness.lib.c15_vals import val_of, val_id, obs, obs_model, gen_val, elem, elem_id, P as NFALSY
 
 
 def _strip_inv(out):
@@ -57,13 +58,13 @@ class LSetComp(Component):
         out, states = [], []
         for op in case["ops"]:
             if op[0] == "add":
-                r = c.add(f"n{op[1]}")
+                r = c.add(elem(op[1]))                 # elements incl. "", None, 0
             elif op[0] == "contains":
-                r = (f"n{op[1]}" in c) if op[1] % 2 else c.contains(f"n{op[1]}")
+                r = (elem(op[1]) in c) if op[1] % 3 else c.contains(elem(op[1]))
             else:
                 r = c.clear()
-            q = [int(x[1:]) for x in c._q]
-            st = [int(x[1:]) for x in c._set]
+            q = [elem_id(x) for x in c._q]
+            st = [elem_id(x) for x in c._set]
             out.append({"r": r, "s": {"q": q, "n": len(c)}})
             states.append({"q": q, "set": st, "size": c.size()})
         return {"out": out, "states": states}
@@ -128,9 +129,10 @@ class LMapComp(Component):
         for _ in range(rng.choice([3, 8, 20, 60])):
             r = rng.random()
             if r < 0.45:
-                ops.append(["put", rng.randrange(nk), rng.randrange(1000)])
+                ops.append(["put", rng.randrange(nk), gen_val(rng)])
             elif r < 0.75:
-                ops.append(["get", rng.randrange(nk)])
+                # get(key) and get(key, default) with None / falsy / ordinary defaults
+                ops.append(["get", rng.randrange(nk)] + ([gen_val(rng)] if rng.random() < 0.4 else []))
             elif r < 0.87:
                 ops.append(["contains", rng.randrange(nk)])
             elif r < 0.96:
@@ -141,14 +143,15 @@ class LMapComp(Component):
                 "evict_raises": rng.random() < 0.2, "ops": ops}
 
     def request(self, case):
-        return {"c": "lmap", "cap": case["cap"], "uog": case["uog"], "uop": case["uop"], "ops": case["ops"]}
+        return {"c": "lmap", "cap": case["cap"], "uog": case["uog"], "uop": case["uop"],
+                "ops": [op[:2] if op[0] == "get" else op for op in case["ops"]]}
 
     def impl(self, case):
         from clematis.engine.util.lru_det import DeterministicLRU
         ev: List[list] = []
 
         def on_evict(k, v):
-            ev.append([k, v])
+            ev.append([k, val_id(v)])
             if case.get("evict_raises"):
                 raise RuntimeError("callback failure must be swallowed")
 
@@ -158,23 +161,23 @@ class LMapComp(Component):
             del ev[:]
             try:
                 if op[0] == "put":
-                    r = c.put(op[1], op[2])
-                    r = list(r) if r is not None else None
+                    r = c.put(op[1], val_of(op[2]))     # value ids denote Python objects incl. None/0/""/False
+                    r = [r[0], val_id(r[1])] if r is not None else None
                 elif op[0] == "get":
-                    r = c.get(op[1])
+                    r = obs(c.get(op[1], val_of(op[2])) if len(op) > 2 else c.get(op[1]))
                 elif op[0] == "contains":
                     r = (op[1] in c) if op[1] % 2 else c.contains(op[1])
                 elif op[0] == "pop_lru":
                     r = c.pop_lru()
-                    r = list(r) if r is not None else None
+                    r = [r[0], val_id(r[1])] if r is not None else None
                 else:
                     r = c.clear()
             except Exception as e:      # nothing here may raise (eviction callbacks are contained)
                 r = f"raised:{type(e).__name__}"
             q = list(c._q)
             out.append({"r": r, "ev": [list(e) for e in ev],
-                        "s": {"items": [list(kv) for kv in c.items()], "q": q, "n": len(c)}})
-            states.append({"q": q, "map": [[k, v] for k, v in c._map.items()]})
+                        "s": {"items": [[k, val_id(v)] for k, v in c.items()], "q": q, "n": len(c)}})
+            states.append({"q": q, "map": [[k, val_id(v)] for k, v in c._map.items()]})
         return {"out": out, "states": states}
 
     def compare(self, case, impl_out, model_out):
@@ -182,7 +185,17 @@ class LMapComp(Component):
             impl_out = impl_out["out"]
         return super().compare(case, impl_out, model_out)
 
-    canon_model = staticmethod(lambda case, out: _strip_inv(out))
+    @staticmethod
+    def canon_model(case, out):
+        out = _strip_inv(out)
+        if isinstance(out, list):
+            for op, o in zip(case["ops"], out):
+                if isinstance(o, dict) and op[0] == "get":
+                    r = o.get("r")
+                    if r is None and len(op) > 2:
+                        r = op[2]                     # miss → the caller's default
+                    o["r"] = obs_model(r)             # a stored / default None reads as None
+        return out
 
     def monitor_requests(self, case, impl_out):
         rq = []
@@ -218,12 +231,16 @@ class LMapComp(Component):
             if op[0] == "get" and cap > 0:
                 k = op[1]
                 want = ([e for e in prev if e[0] != k] + [[k, pm[k]]]) if (k in pm and case["uog"]) else prev
-                res.append(("get_recency", o["r"] == pm.get(k) and cur == want, f"get {k}={o['r']}: {prev} -> {cur}"))
+                # a present key is a hit whatever it stores (None, 0, "", False …); a miss yields the default
+                expect = obs_model(pm[k]) if k in pm else (obs_model(op[2]) if len(op) > 2 else None)
+                res.append(("get_recency", o["r"] == expect and cur == want, f"get {op[1:]}={o['r']} (expected {expect}): {prev} -> {cur}"))
             if op[0] == "pop_lru" and cap > 0:
                 ok = (o["r"] is None and cur == prev == []) if not prev else (o["r"] == prev[0] and cur == prev[1:] and o["ev"] == [prev[0]])
                 res.append(("pop_lru_is_oldest", ok, f"pop_lru {o['r']}: {prev} -> {cur}"))
             if cap == 0:
-                res.append(("disabled_inert", cur == [] and o["r"] in (None, False) and o["s"]["n"] == 0, f"disabled: {o}"))
+                inert_r = (obs_model(op[2]) if len(op) > 2 else None) if op[0] == "get" else None
+                res.append(("disabled_inert", cur == [] and (o["r"] == inert_r or (op[0] == "contains" and o["r"] is False))
+                            and o["s"]["n"] == 0, f"disabled: {o}"))
             prev = cur
         return res
 
@@ -232,8 +249,12 @@ class LMapComp(Component):
         for op, o in zip(case["ops"], impl_out["out"]):
             if o["ev"] and op[0] == "put":
                 t.add("evict")
-            if op[0] == "get" and o["r"] is not None:
+            if op[0] == "get" and o["r"] is not None and len(op) == 2:
                 t.add("hit")
+            if op[0] == "get" and len(op) > 2:
+                t.add("get_default")
+            if op[0] == "put" and 0 <= op[2] < NFALSY and case["cap"] > 0:
+                t.add("falsy_value_stored")
             if op[0] == "pop_lru" and o["r"] is not None:
                 t.add("pop")
         if case["cap"] <= 0:
@@ -276,19 +297,19 @@ class RingComp(Component):
         out, states = [], []
         for op in case["ops"]:
             if op[0] == "add":
-                c.add(f"n{op[1]}")
+                c.add(elem(op[1]))                     # elements incl. "", None, 0
             elif op[0] == "extend":
-                c.extend(f"n{x}" for x in op[1])
+                c.extend(elem(x) for x in op[1])
             elif op[0] == "discard":
-                c.discard(f"n{op[1]}")
+                c.discard(elem(op[1]))
             else:
                 c.clear()
-            q = [int(x[1:]) for x in c.tolist()]
-            ref = [int(c._ref.get(f"n{x}", 0)) for x in range(nk)]
-            has = [(f"n{x}" in c) if x % 2 else c.contains(f"n{x}") for x in range(nk)]
+            q = [elem_id(x) for x in c.tolist()]
+            ref = [int(c._ref.get(elem(x), 0)) for x in range(nk)]
+            has = [(elem(x) in c) if x % 3 else c.contains(elem(x)) for x in range(nk)]
             out.append({"s": {"q": q, "n": len(c), "ref": ref, "has": has}})
             states.append({"q": q, "ref": ref, "has": has,
-                           "extra_ref": sorted(k for k, v in c._ref.items() if v > 0 and not (k[:1] == "n" and k[1:].isdigit() and int(k[1:]) < nk))})
+                           "extra_ref": sorted(repr(k) for k, v in c._ref.items() if v > 0 and not (0 <= elem_id(k) < nk))})
         return {"out": out, "states": states}
 
     def compare(self, case, impl_out, model_out):
@@ -388,7 +409,8 @@ class _Exhaustive:
 class LMapExhaustive(_Exhaustive, LMapComp):
     name = "lmap_x"
     budget = {"quick": 1500, "thorough": 88880, "search": 88880}   # whole space in thorough
-    alphabet = [["put", 0, 1], ["put", 1, 2], ["put", 2, 3], ["put", 0, 4], ["get", 0], ["get", 1], ["get", 2],
+    # values: id 0 = None, 2 = "", 3 = False, 9 = the integer 9; `get` with and without a default
+    alphabet = [["put", 0, 0], ["put", 1, 2], ["put", 2, 9], ["put", 0, 3], ["get", 0], ["get", 1, 8], ["get", 2],
                 ["pop_lru"], ["contains", 1], ["clear"]]
     maxlen = 4
     configs = [(cap, uog, uop) for cap in (1, 2) for uog in (False, True) for uop in (False, True)]
